@@ -187,6 +187,38 @@ LEGACY_ARGS = {"ULeg": ("u", "v"), "ULegChild": ("u", "v", "w"), "ULegGrand": ("
 
 
 # ------------------------------------------------------------ values <-> JSON
+# float NaN constants: a value that is not == itself, so WHICH float object sits where is
+# observable (containers compare with "is" first).  Within one history the name (id) a
+# specification gives a NaN stands for one Python float object; a NaN object met while
+# reading the live objects back that has no name yet (it came out of a pickle) gets the
+# next free one from 101 on.  Reset for every history.
+_NAN_BY_NAME = {}
+_NAN_NAME = {}      # id(float object) -> name; the objects stay alive in _NAN_KEEP
+_NAN_KEEP = []
+
+
+def _nan_reset():
+    _NAN_BY_NAME.clear()
+    _NAN_NAME.clear()
+    del _NAN_KEEP[:]
+
+
+def _nan_named(name):
+    if name not in _NAN_BY_NAME:
+        v = float("nan")
+        _NAN_BY_NAME[name] = v
+        _NAN_NAME[id(v)] = name
+        _NAN_KEEP.append(v)
+    return _NAN_BY_NAME[name]
+
+
+def _nan_name(v):
+    if id(v) not in _NAN_NAME:
+        _NAN_KEEP.append(v)
+        _NAN_NAME[id(v)] = 101 + sum(1 for n in _NAN_NAME.values() if n > 100)
+    return _NAN_NAME[id(v)]
+
+
 def build(j):
     import numpy as np
     from immutabledict import immutabledict
@@ -199,6 +231,8 @@ def build(j):
             return bool(j["n"])
         if k == "flt":
             return j["n"] / j["d"]
+        if k == "nan":
+            return _nan_named(j["id"])
         if k == "frac":
             return Fraction(j["n"], j["d"])
         if k == "cplx":
@@ -252,6 +286,8 @@ def read(v):
         return _num("npflt", float(v)) if np.isfinite(v) else {"t": "Unk", "s": "nan"}
     if isinstance(v, int):
         return _num("int", v)
+    if type(v) is float and v != v:
+        return {"t": "K", "k": "nan", "n": 0, "d": 1, "im": 0, "id": _nan_name(v)}
     if isinstance(v, float):
         return _num("flt", v) if v == v and abs(v) != float("inf") else {"t": "Unk", "s": "nan"}
     if isinstance(v, Fraction):
@@ -461,6 +497,7 @@ def foreign_main():
     _classes()
     for line in sys.stdin:
         req = json.loads(line)
+        _nan_reset()
         try:
             o = build(req["spec"])      # the constructor may refuse, as it would here
         except Exception as exc:  # noqa: BLE001
@@ -510,6 +547,7 @@ def _drive_inproc(case, blobs, fresh):
     global _CLS
     tr = _Trace()
     tr.blobs = blobs
+    _nan_reset()
     evs = []
     with warnings.catch_warnings():
         warnings.simplefilter("ignore")
